@@ -271,9 +271,10 @@ theorem push_WF {h : Heap} (hw : WF h) {x : Obj} {toks : List Nat} (ha : Admissi
     · simp [Obj.nil] at hb
 
 /-- every creating command builds an admissible object when both `_hold_ref` calls are made -/
-theorem mkObj_admissible {h : Heap} (hw : WF h) (c : Cmd) (x : Obj) (toks : List Nat)
+theorem mkObj_admissible {h : Heap} (hw : WF h) (c : Cmd) (hna : c.aliasing = false) (x : Obj) (toks : List Nat)
     (hm : mkObj Cfg.code h c = some (x, toks)) : Admissible h x toks := by
   cases c with
+  | opAliased a => simp [Cmd.aliasing] at hna
   | newArray tok =>
     simp only [mkObj, Option.some.injEq, Prod.mk.injEq] at hm
     obtain ⟨rfl, rfl⟩ := hm
@@ -429,16 +430,17 @@ theorem finalize_WF {h : Heap} (hw : WF h) (o : Nat) (hlt : o < h.objs.length) (
       Path.congr (h := h) (h' := { h with dead := o :: h.dead, freed := (h.obj o).owns ++ h.freed }) rfl hp
     exact ⟨w, hp', hwo⟩
 
-theorem step_WF {h h' : Heap} (hw : WF h) (c : Cmd) (hs : step Cfg.code h c = some h') : WF h' := by
-  have hpush : ∀ c', (mkObj Cfg.code h c').map (fun p => h.push p.1 p.2) = some h' → WF h' := by
-    intro c' hm
+theorem step_WF {h h' : Heap} (hw : WF h) (c : Cmd) (hna : c.aliasing = false)
+    (hs : step Cfg.code h c = some h') : WF h' := by
+  have hpush : ∀ c', c'.aliasing = false → (mkObj Cfg.code h c').map (fun p => h.push p.1 p.2) = some h' → WF h' := by
+    intro c' hna' hm
     cases hmk : mkObj Cfg.code h c' with
     | none => rw [hmk] at hm; cases hm
     | some p =>
       rw [hmk] at hm
       simp only [Option.map_some, Option.some.injEq] at hm
       rw [← hm]
-      exact push_WF hw (mkObj_admissible hw c' p.1 p.2 hmk)
+      exact push_WF hw (mkObj_admissible hw c' hna' p.1 p.2 hmk)
   cases c with
   | alias o =>
     simp only [step] at hs
@@ -470,22 +472,24 @@ theorem step_WF {h h' : Heap} (hw : WF h) (c : Cmd) (hs : step Cfg.code h c = so
         decide_eq_false_iff_not] at hc
       exact finalize_WF hw o hc.1.1 (fun hr => hc.1.2 ((mem_reachable_iff hw o).mpr hr)) hc.2
     next => cases hs
-  | newArray tok => exact hpush (.newArray tok) hs
-  | npView o => exact hpush (.npView o) hs
-  | mkStorage srcs => exact hpush (.mkStorage srcs) hs
-  | opStorage toks => exact hpush (.opStorage toks) hs
-  | mkArray s => exact hpush (.mkArray s) hs
-  | view a k => exact hpush (.view a k) hs
+  | newArray tok => exact hpush (.newArray tok) rfl hs
+  | npView o => exact hpush (.npView o) rfl hs
+  | mkStorage srcs => exact hpush (.mkStorage srcs) rfl hs
+  | opStorage toks => exact hpush (.opStorage toks) rfl hs
+  | mkArray s => exact hpush (.mkArray s) rfl hs
+  | view a k => exact hpush (.view a k) rfl hs
+  | opAliased a => simp [Cmd.aliasing] at hna
 
-theorem run_WF : ∀ {h h' : Heap} (cs : List Cmd), WF h → run Cfg.code h cs = some h' → WF h'
-  | h, h', [], hw, hr => by simp only [run, Option.some.injEq] at hr; rw [← hr]; exact hw
-  | h, h', c :: cs, hw, hr => by
+theorem run_WF : ∀ {h h' : Heap} (cs : List Cmd), ExcludedHistory cs = false → WF h → run Cfg.code h cs = some h' → WF h'
+  | h, h', [], _, hw, hr => by simp only [run, Option.some.injEq] at hr; rw [← hr]; exact hw
+  | h, h', c :: cs, hex, hw, hr => by
+    simp only [ExcludedHistory, List.any_cons, Bool.or_eq_false_iff] at hex
     simp only [run] at hr
     cases hs : step Cfg.code h c with
     | none => rw [hs] at hr; cases hr
     | some h1 =>
       rw [hs] at hr
-      exact run_WF cs (step_WF hw c hs) hr
+      exact run_WF cs hex.2 (step_WF hw c hex.1 hs) hr
 
 /-- a step never changes the contents of an existing buffer (for any configuration) -/
 theorem step_frame (cfg : Cfg) {h h' : Heap} (hlen : h.cont.length = h.nbuf) (c : Cmd) (hs : step cfg h c = some h') :
@@ -525,6 +529,7 @@ theorem step_frame (cfg : Cfg) {h h' : Heap} (hlen : h.cont.length = h.nbuf) (c 
   | opStorage toks => exact hpush (.opStorage toks) hs
   | mkArray s => exact hpush (.mkArray s) hs
   | view a k => exact hpush (.view a k) hs
+  | opAliased a => exact hpush (.opAliased a) hs
 
 theorem run_frame (cfg : Cfg) : ∀ {h h' : Heap} (cs : List Cmd), h.cont.length = h.nbuf → run cfg h cs = some h' →
     h'.cont.length = h'.nbuf ∧ h.nbuf ≤ h'.nbuf ∧ ∀ b, b < h.nbuf → h'.cont[b]? = h.cont[b]?
